@@ -8,6 +8,8 @@
 
 use std::cell::RefCell;
 
+pub mod baton;
+
 pub trait SimHooks {
     /// A parallel section with `n` items starts at `site`. Return the order
     /// (a permutation of `0..n`) in which the items complete.
@@ -19,6 +21,11 @@ pub trait SimHooks {
     /// Number of worker threads the simulated pool reports.
     fn num_threads(&mut self) -> usize {
         4
+    }
+    /// Mode T: run the next parallel section of `n` items on this many real
+    /// threads under the baton scheduler, with the given chooser. `None` = Mode P.
+    fn mode_t(&mut self, _n: usize) -> Option<(usize, baton::Chooser)> {
+        None
     }
 }
 
@@ -67,6 +74,10 @@ pub fn fill(buf: &mut [u8]) {
             }
         });
     }
+}
+
+pub fn mode_t(n: usize) -> Option<(usize, baton::Chooser)> {
+    with_hooks(|h| h.mode_t(n)).flatten()
 }
 
 pub fn num_threads() -> usize {
